@@ -163,6 +163,29 @@ Definition vor_check (V : nat) (E : list edge) (seeds : list nat) (d : dist_t) (
                   bget (closure V (tight d) E (mark V [nth i seeds O])) v)
              end) (seq 0 V).
 
+(* forest: the undirected edge list can be built by adding its edges one at a
+   time, each joining two vertices that the edges before it do not connect
+   (so no edge ever closes a cycle) *)
+Inductive forest_from (B : list edge) : list edge -> Prop :=
+| ff_nil : forest_from B []
+| ff_cons : forall e t, ~ connected B (esrc e) (edst e) -> forest_from (B ++ [e]) t -> forest_from B (e :: t).
+Definition is_forest (T : list edge) : Prop := forest_from [] T.
+
+(* forest certificate check: label merging as in kruskal; an edge whose end
+   points already carry the same label is refused *)
+Fixpoint forest_loop (T : list edge) (lab : list Z) : bool :=
+  match T with
+  | [] => true
+  | e :: t =>
+      let la := getl lab (esrc e) in
+      let lb := getl lab (edst e) in
+      if la =? lb then false
+      else forest_loop t (map (fun x => if x =? lb then la else x) lab)
+  end.
+Definition forest_check (V : nat) (T : list edge) : bool :=
+  forallb (fun e => (esrc e <? V)%nat && (edst e <? V)%nat) T &&
+  forest_loop T (map Z.of_nat (seq 0 V)).
+
 (* ------------------------------------------------------------------ *)
 (* Part C: models of the code as written                               *)
 
